@@ -70,7 +70,19 @@ def registration(ctx, name, src, res, T, order, mode, cval, spy=None, mask_mode=
                      np.asarray(src.landmarks[g].points), tol=1e-6)
     if type(src).__name__ == 'MaskedImage' and spy is not None:
         mm = mask_mode or mode
-        if ctx.sym:
+        if ctx.sym and len(spy.calls) == 0 and src.mask.all_true():
+            # the mask warp may be skipped for a full mask only if the result is
+            # still the sampled mask: all-true where T(q) falls inside the source
+            rm = np.asarray(res.mask.pixels).reshape(-1)
+            if mm == 'constant':
+                for k in range(len(rm)):
+                    if rm[k]:
+                        for a in range(len(shape)):
+                            ctx.check(name + '/mask/true-only-where-T(q)-inside-source[%d]' % k,
+                                      (pts[k, a] >= -0.5) & (pts[k, a] <= src.shape[a] - 0.5))
+            else:
+                ctx.check_true(name + '/mask/full-mask-stays-full(nearest)', bool(rm.all()))
+        elif ctx.sym:
             ctx.check_true(name + '/mask-warped-exactly-once', len(spy.calls) == 1, '%d calls' % len(spy.calls))
             if len(spy.calls) == 1:
                 c = spy.calls[0]
@@ -86,6 +98,8 @@ def registration(ctx, name, src, res, T, order, mode, cval, spy=None, mask_mode=
 
 def make_image(ctx, cls, shape, ch=1, lms=1):
     m = None
+    if cls == 'MaskedImageAllTrue':
+        return B.image(ctx, 'MaskedImage', shape, ch, mask=None, landmarks=lms)
     if cls == 'MaskedImage':
         m = (np.arange(int(np.prod(shape))).reshape(shape) % 4 != 1)
     if cls == 'BooleanImage':
@@ -98,7 +112,7 @@ IMG_FUNCS = ['menpo.image.base:Image.warp_to_shape', 'menpo.image.base:Image._bu
 
 
 @contract('C01', 'warp_to_shape', configs=[dict(cls=c, tr=t, d=d) for c in ('Image', 'MaskedImage') for t in ('Affine', 'Opaque', 'Homogeneous')
-                                           for d in (2, 3) if not (t == 'Homogeneous' and d == 3)] +
+                                           for d in (2, 3) if not (t == 'Homogeneous' and d == 3)] + [dict(cls='MaskedImageAllTrue', tr='Affine', d=2)] +
           [dict(cls='BooleanImage', tr='IntTranslation', d=2)], functions=IMG_FUNCS)
 def warp_to_shape(ctx, cls, tr, d):
     """the single funnel: any (well-conditioned affine / projective / opaque
@@ -106,6 +120,7 @@ def warp_to_shape(ctx, cls, tr, d):
     T, S = B.menpo_mods()
     shape = (3, 4) if d == 2 else (2, 2, 2)
     src = make_image(ctx, cls, shape, 2 if cls == 'Image' else 1, lms=2)
+    cls = 'MaskedImage' if cls.startswith('MaskedImage') else cls
     before = state_of(src)
     if tr == 'Opaque':
         t = _opaque_transform(ctx, 'W', d)
@@ -134,7 +149,7 @@ def warp_to_shape(ctx, cls, tr, d):
             pinv = t.pseudoinverse()
             for g in src.landmarks:
                 B.assume_in_domain(ctx, pinv, np.asarray(src.landmarks[g].points))
-        with mask_spy(ctx, cls == 'MaskedImage') as spy:
+        with mask_spy(ctx, cls.startswith('MaskedImage')) as spy:
             kw = dict(order=order) if cls != 'BooleanImage' else {}
             res, rt = src.warp_to_shape(tshape, t, warp_landmarks=True, mode=mode, cval=cval, return_transform=True, **kw)
             ctx.check_true('o%d/returned-transform-is-the-applied-one' % order, rt is t)
@@ -155,6 +170,7 @@ def _op_cfgs(tier):
                    'about_centre:affine', 'rescale_to_diagonal', 'warp_to_mask'):
             out.append(dict(cls=cls, op=op))
     out += [dict(cls='BooleanImage', op='mirror0'), dict(cls='BooleanImage', op='mirror1')]
+    out += [dict(cls='MaskedImageAllTrue', op=o) for o in ('rotate:retain', 'about_centre:affine', 'zoom', 'rescale:round')]
     out += [dict(cls='Image', op='mirror3d'), dict(cls='Image', op='rescale3d')]
     return out
 
@@ -172,11 +188,12 @@ def ops(ctx, cls, op):
     d = 3 if op.endswith('3d') else 2
     shape = (3, 4) if d == 2 else (2, 3, 2)
     src = make_image(ctx, cls, shape, 1, lms=1)
+    cls = 'MaskedImage' if cls.startswith('MaskedImage') else cls
     before = state_of(src)
     order = 1 if cls != 'BooleanImage' else 0
     kw = dict(order=order) if cls != 'BooleanImage' else {}
     mode, cval = 'nearest', 0.0
-    with mask_spy(ctx, cls == 'MaskedImage') as spy:
+    with mask_spy(ctx, cls.startswith('MaskedImage')) as spy:
         if op.startswith('rescale:') or op == 'rescale3d':
             rnd = op.split(':')[1] if ':' in op else 'ceil'
             s = ctx.reals('s', d, lo=0.45, hi=1.45)
@@ -219,7 +236,7 @@ def ops(ctx, cls, op):
         elif op == 'rescale_to_diagonal':
             dg = ctx.real('diag', lo=2.6, hi=6.9)
             res, rt = src.rescale_to_diagonal(dg, return_transform=True)
-            with mask_spy(ctx, cls == 'MaskedImage'):
+            with mask_spy(ctx, cls.startswith('MaskedImage')):
                 ref, rt2 = src.rescale(dg / src.diagonal(), return_transform=True)
             compare_states(ctx, 'delegates-to-rescale', state_of(res), state_of(ref))
         elif op == 'rescale_to_pointcloud':
@@ -338,7 +355,7 @@ def ops_native(ctx, cls, op, dtype, nd):
         src = BooleanImage(rs.rand(*shape) > 0.4)
     else:
         data = (rs.rand(ch, *shape) * 200).astype(dtype)
-        src = Image(data) if cls == 'Image' else MaskedImage(data, mask=rs.rand(*shape) > 0.25)
+        src = Image(data) if cls == 'Image' else MaskedImage(data, mask=(rs.rand(*shape) > 0.25) if rs.rand() < 0.6 else None)
     lm = np.array([rs.uniform(1, s - 2, size=4) for s in shape]).T
     src.landmarks['a'] = S.PointCloud(lm)
     src.landmarks['b'] = S.PointCloud(lm[:2] + 0.3)
